@@ -1022,7 +1022,6 @@ package scipipe
 //@   modifies chan, cells
 //@   atcall builtin.close all-tokens-taken[C05]: $arg0 == merged && chanRecvN(merged) == ite(p.inPorts["sink_in"].ready, 1, 0) + ite(p.inParamPorts["param_sink_in"].ready, 1, 0)
 //@   ensures waits-for-every-drainer[C05]: chanRecvN(merged) == ite(p.inPorts["sink_in"].ready, 1, 0) + ite(p.inParamPorts["param_sink_in"].ready, 1, 0)
-//@   ensures merged-unbuffered[C05]: chanCap(merged) == 0
 //@ func (*Sink).Run$1()
 //@   props C05
 //@   modifies chan(p.inPorts["sink_in"].Chan), chansend
